@@ -57,7 +57,7 @@ def case_strategy(draw):
     if allsky:
         scene = draw(gen.allsky_scene(theta_max, edges, ncat, need_z=need))
     elif huge:
-        scene = draw(gen.lattice_scene(draw(st.sampled_from([128, 129, 256, 257, 300])), extra=10, ncat=ncat, edges=edges, need_z=need, theta_max=theta_max))
+        scene = draw(gen.lattice_scene(draw(st.sampled_from([300, 257, 256, 129, 128])), extra=10, ncat=ncat, edges=edges, need_z=need, theta_max=theta_max))
     else:
         scene = draw(gen.scene_case(theta_max, edges, ncat, need_z=need, **size))
     # occasionally the first catalog is created from a patch-index column and the others take
